@@ -398,15 +398,13 @@ func fnSort(ctx *cmdContext, args map[string]any) (output respValue, err error) 
 }
 
 func fnFlushAll(ctx *cmdContext, args map[string]any) (output respValue, err error) {
-	ctx.cs.dss.flushAll()
-	ctx.cs.selectDb(ctx.cs.selectedDb, true)
+	ctx.dsc.flushAll(ctx.cs.dss, ctx.multi)
 	output.data = rstrOK
 	return
 }
 
 func fnFlushDb(ctx *cmdContext, args map[string]any) (output respValue, err error) {
-	ctx.cs.dss.flushDb(ctx.cs.selectedDb)
-	ctx.cs.selectDb(ctx.cs.selectedDb, true)
+	ctx.dsc.flush()
 	output.data = rstrOK
 	return
 }
